@@ -247,6 +247,20 @@ def check_decisions(chk, c, rule, select, what='decision structure'):
             chk.ok(rule, '%s: %s' % (fq, what), 'handler / explicit test exchanged, not compared', fi.loc, key=key)
             continue
         if gone:
+            # extract-function: the statements now stand in a function that did not exist in the reviewed tree and that this one calls
+            moved_to = None
+            for s_ in c.cg.sites.get(fq, ()):
+                for t in (s_.targets if s_.kind == 'call' else ()):
+                    if t.kind == 'func' and t.func.qualname not in ref and t.func.qualname != fq:
+                        hev = cur.get(t.func.qualname, {})
+                        tails = {k_.rsplit('.', 1)[-1] for k_ in hev}
+                        if all(g_.rsplit('.', 1)[-1] in tails for g_ in gone):
+                            moved_to = t.func.qualname
+            if moved_to:
+                chk.info('%s: %s: %s now stand(s) in the new function %s that it calls: not compared' % (rule, fq, gone[:2], moved_to))
+                chk.ok(rule, '%s: %s' % (fq, what), 'statements extracted into %s, not compared' % moved_to, fi.loc, key=key)
+                continue
+        if gone:
             chk.fail(rule, '%s: %s' % (fq, what),
                      'statement(s) of the reviewed function are gone and nothing took their place: %s' % ', '.join('`%s`' % g_ for g_ in gone[:3]),
                      fi.loc, key=key + '|gone|' + gone[0][:40])
